@@ -29,6 +29,54 @@ theorem free_step {s : St} {i : Nat} {c : Cell} (h : s.cellAt i = some c) :
   obtain ⟨s', h1, h2, h3, h4, h5, h6, h7⟩ := free_view h
   exact ⟨s', h1, h2, h3, h4, h5, h6, h7⟩
 
+/-- What a call does to the payloads: untouched everywhere except at `n` (which ends up with
+    `newPay`) and at `dead` (a cell that was destroyed). -/
+structure PayFrame (s s' : St) (n : Nat) (dead : Option Nat) (newPay : Pay) : Prop where
+  other : ∀ j, j ≠ n → some j ≠ dead → payOf s'.cellAt j = payOf s.cellAt j
+  self : payOf s'.cellAt n = newPay
+  gone : ∀ l, dead = some l → s'.cellAt l = none
+
+/-- What a call does to the `next` pointers: every sibling edge afterwards was one before, or is one
+    of the listed new edges. -/
+structure EdgeFrame (s s' : St) (E : List (Nat × Nat)) : Prop where
+  edges : ∀ i j c', s'.cellAt i = some c' → c'.next = some j →
+    (∃ c, s.cellAt i = some c ∧ c.next = some j) ∨ (i, j) ∈ E
+
+/-- Text nodes do not appear out of nothing. -/
+def TextMono (s s' : St) : Prop :=
+  ∀ j c', s'.cellAt j = some c' → c'.pay.isText = true → ∃ c, s.cellAt j = some c ∧ c.pay.isText = true
+
+theorem PayFrame.textMono {s s' : St} {n : Nat} {dead : Option Nat} {newPay : Pay}
+    (pf : PayFrame s s' n dead newPay)
+    (hn : newPay.isText = true → ∃ c, s.cellAt n = some c ∧ c.pay.isText = true) : TextMono s s' := by
+  intro j c' hc' ht
+  by_cases hjn : j = n
+  · subst hjn
+    apply hn
+    have := pf.self
+    simp only [payOf, hc'] at this
+    rw [← this]; exact ht
+  · by_cases hjd : some j = dead
+    · rw [pf.gone j hjd.symm] at hc'; cases hc'
+    · have := pf.other j hjn hjd
+      simp only [payOf, hc'] at this
+      cases hv : s.cellAt j with
+      | none => rw [hv] at this; simp only at this; rw [this] at ht; cases ht
+      | some c => rw [hv] at this; simp only at this; exact ⟨c, rfl, by rw [← this]; exact ht⟩
+
+/-- The adjacency property survives a call whose new sibling edges do not join two text nodes. -/
+theorem NoAdjText.step {s s' : St} (h : NoAdjText s) (E : List (Nat × Nat)) (he : EdgeFrame s s' E)
+    (ht : TextMono s s')
+    (hE : ∀ i j ci cj, (i, j) ∈ E → s'.cellAt i = some ci → s'.cellAt j = some cj →
+      ¬ (ci.pay.isText = true ∧ cj.pay.isText = true)) : NoAdjText s' := by
+  intro i j ci cj hci hnx hcj ⟨t1, t2⟩
+  rcases he.edges i j ci hci hnx with ⟨c, hc, hcn⟩ | hnew
+  · obtain ⟨c0, hc0, ht0⟩ := ht i ci hci t1
+    rw [hc] at hc0; injection hc0 with hc0; subst hc0
+    obtain ⟨cj0, hcj0, htj0⟩ := ht j cj hcj t2
+    exact h i j c cj0 hc hcn hcj0 ⟨ht0, htj0⟩
+  · exact hE i j ci cj hnew hci hcj ⟨t1, t2⟩
+
 /-- The situation in which `wbxml_tree_add_node(tree, P, n)` is called by the histories of C18:
     `n` is a detached top (not the root), `P` is a live branch node outside the sub-tree of `n`. -/
 structure AddCtx (s : St) (G : BT) (P n : Nat) (cP cn : Cell) : Prop where
@@ -73,13 +121,35 @@ end AddCtx
 theorem addNode_first {s : St} {G : BT} {P n : Nat} {cP cn : Cell} (c : AddCtx s G P n cP cn)
     (hf : cP.first = none) :
     ∃ s', addNode s (some P) n = .ok (true, s') ∧ SameMeta s s' ∧
-      Forest s' (BT.setKids P (.node n (BT.chainKids n G) .nil) (BT.chainRemove n G)) := by
+      Forest s' (BT.setKids P (.node n (BT.chainKids n G) .nil) (BT.chainRemove n G)) ∧
+      (∃ c', s'.cellAt n = some c' ∧ c'.pay.isBranch = cn.pay.isBranch ∧ c'.pay.isText = cn.pay.isText) ∧
+      PayFrame s s' n none cn.pay ∧ EdgeFrame s s' [] := by
   obtain ⟨hp0, hv0, hn0, hf0, hb0, hm0⟩ := c.cn_facts
   obtain ⟨k1, k2, k3, k4, k5, k6, k7⟩ := c.kids_facts
   obtain ⟨s1, e1, v1, m1⟩ := upd_step c.hcn (fun c => { c with parent := some P }) (fun _ => rfl)
   have hP1 : s1.cellAt P = some cP := by rw [v1, vset_ne _ _ c.hPn]; exact c.hcP
   obtain ⟨s2, e2, v2, m2⟩ := upd_step hP1 (fun c => { c with first := some n }) (fun _ => rfl)
-  refine ⟨s2, ?_, m1.trans m2, ?_⟩
+  have hpf : PayFrame s s2 n none cn.pay := by
+    refine ⟨?_, ?_, by intro l h; cases h⟩
+    · intro j hj _
+      rw [v2, payOf_vset_same hP1 (by rfl), v1, payOf_vset_ne _ _ hj]
+    · rw [v2, payOf_vset_ne _ _ c.hPn.symm, v1, payOf_vset_self]
+  have hef : EdgeFrame s s2 [] := by
+    refine ⟨?_⟩
+    intro i j c' hc' hnx
+    left
+    by_cases hiP : i = P
+    · subst hiP
+      rw [v2] at hc'; simp only [vset_self, Option.some.injEq] at hc'; subst hc'
+      exact ⟨cP, c.hcP, hnx⟩
+    · rw [v2, vset_ne _ _ hiP, v1] at hc'
+      by_cases hin : i = n
+      · subst hin
+        simp only [vset_self, Option.some.injEq] at hc'; subst hc'
+        rw [hn0] at hnx; cases hnx
+      · rw [vset_ne _ _ hin] at hc'; exact ⟨c', hc', hnx⟩
+  refine ⟨s2, ?_, m1.trans m2, ?_, ⟨{ cn with parent := some P }, by rw [v2, vset_ne _ _ c.hPn.symm, v1]; simp, rfl, rfl⟩,
+    hpf, hef⟩
   · simp only [addNode, e1, bind, Except.bind, deref_of_cellAt hP1, hf, e2, pure, Except.pure]
   · have hKnil : BT.kidsOf P G = .nil := BT.rid_none (by rw [← k1]; exact hf)
     have hnk := BT.chainKids_nodup n G c.hF.nodup c.hn
@@ -176,7 +246,10 @@ theorem addNode_append {s : St} {G : BT} {P n : Nat} {cP cn : Cell} (c : AddCtx 
     (hnt : ∀ l cl, (BT.kidsOf P G).lastId = some l → s.cellAt l = some cl →
       (cn.pay.isText && cl.pay.isText) = false) :
     ∃ s', addNode s (some P) n = .ok (true, s') ∧ SameMeta s s' ∧
-      Forest s' (BT.setKids P (BT.snoc (BT.kidsOf P G) (.node n (BT.chainKids n G) .nil)) (BT.chainRemove n G)) := by
+      Forest s' (BT.setKids P (BT.snoc (BT.kidsOf P G) (.node n (BT.chainKids n G) .nil)) (BT.chainRemove n G)) ∧
+      (∃ c', s'.cellAt n = some c' ∧ c'.pay.isBranch = cn.pay.isBranch ∧ c'.pay.isText = cn.pay.isText) ∧
+      PayFrame s s' n none cn.pay ∧
+      ∃ l, (BT.kidsOf P G).lastId = some l ∧ EdgeFrame s s' [(l, n)] := by
   obtain ⟨hp0, hv0, hn0, hf0, hb0, hm0⟩ := c.cn_facts
   obtain ⟨k1, k2, k3, k4, k5, k6, k7⟩ := c.kids_facts
   obtain ⟨s1, l, cl, e1, v1, m1, dP, hw, hl, hKne, hcl, dl, dn, hln, hlP, hlK, hlnx, hlpv⟩ := addNode_walk c hf
@@ -193,7 +266,25 @@ theorem addNode_append {s : St} {G : BT} {P n : Nat} {cP cn : Cell} (c : AddCtx 
   have hv_n : s3.cellAt n = some { cn with parent := some P, prev := some l } := by
     rw [v3, vset_ne _ _ hln.symm, v2]; simp
   have hv_l : s3.cellAt l = some { cl with next := some n } := by rw [v3]; simp
-  refine ⟨s3, ?_, (m1.trans m2).trans m3, ?_⟩
+  have hpf : PayFrame s s3 n none cn.pay := by
+    refine ⟨?_, by simp [payOf, hv_n], by intro l h; cases h⟩
+    intro j hj _
+    rw [v3, payOf_vset_same hl2 (by rfl), v2, payOf_vset_ne _ _ hj, v1, payOf_vset_ne _ _ hj]
+  have hef : EdgeFrame s s3 [(l, n)] := by
+    refine ⟨?_⟩
+    intro i j c' hc' hnx
+    by_cases hil : i = l
+    · subst hil
+      rw [hv_l] at hc'; simp only [Option.some.injEq] at hc'; subst hc'
+      simp only [Option.some.injEq] at hnx; subst hnx
+      right; simp
+    · left
+      by_cases hin : i = n
+      · subst hin
+        rw [hv_n] at hc'; simp only [Option.some.injEq] at hc'; subst hc'
+        rw [hn0] at hnx; cases hnx
+      · rw [hv_other i hin hil] at hc'; exact ⟨c', hc', hnx⟩
+  refine ⟨s3, ?_, (m1.trans m2).trans m3, ?_, ⟨_, hv_n, rfl, rfl⟩, hpf, ⟨l, hl, hef⟩⟩
   · simp only [addNode, e1, bind, Except.bind, dP, hf, hw, dl, dn, hcond, linkAppend, e2, e3, pure, Except.pure,
       Bool.false_eq_true, if_false]
   · apply Forest.rebuild c.hF _ c.hn c.hroot c.hP c.hPn c.hPk ((m1.trans m2).trans m3).1
@@ -338,7 +429,13 @@ theorem addNode_merge {s : St} {G : BT} {P n : Nat} {cP cn : Cell} (c : AddCtx s
     (ht : ∀ l cl, (BT.kidsOf P G).lastId = some l → s.cellAt l = some cl →
       (cn.pay.isText && cl.pay.isText) = true) :
     ∃ s', addNode s (some P) n = .ok (true, s') ∧ SameMeta s s' ∧
-      Forest s' (BT.setKids P (BT.replLast n (BT.kidsOf P G)) (BT.chainRemove n G)) := by
+      Forest s' (BT.setKids P (BT.replLast n (BT.kidsOf P G)) (BT.chainRemove n G)) ∧
+      (∃ c', s'.cellAt n = some c' ∧ c'.pay.isBranch = cn.pay.isBranch ∧ c'.pay.isText = cn.pay.isText) ∧
+      ∃ l cl, (BT.kidsOf P G).lastId = some l ∧ s.cellAt l = some cl ∧
+        PayFrame s s' n (some l) (.text (cl.pay.textOf ++ cn.pay.textOf)) ∧
+        EdgeFrame s s' (match cl.prev with
+          | some q => [(q, n)]
+          | none => []) := by
   obtain ⟨hp0, hv0, hn0, hf0, hb0, hm0⟩ := c.cn_facts
   obtain ⟨k1, k2, k3, k4, k5, k6, k7⟩ := c.kids_facts
   obtain ⟨s1, l, cl, e1, v1, m1, dP, hw, hl, hKne, hcl, dl, dn, hln, hlP, hlK, hlnx, hlpv⟩ := addNode_walk c hf
@@ -361,7 +458,37 @@ theorem addNode_merge {s : St} {G : BT} {P n : Nat} {cP cn : Cell} (c : AddCtx s
     have hl3 : s3.cellAt l = some cl := by
       rw [v3, vset_ne _ _ hln, v2, vset_ne _ _ hlP]; exact hl1
     obtain ⟨s4, e4, v4, m4⟩ := free_step hl3
-    refine ⟨s4, ?_, ((m1.trans m2).trans m3).trans m4, ?_⟩
+    have hnb : cn.pay.isBranch = false := by
+      cases hpay : cn.pay <;> simp [hpay, Pay.isText] at htn <;> rfl
+    have hpf : PayFrame s s4 n (some l) (.text (cl.pay.textOf ++ cn.pay.textOf)) := by
+      refine ⟨?_, ?_, ?_⟩
+      · intro j hj hjl
+        have hjl' : j ≠ l := fun e => hjl (by rw [e])
+        rw [v4, payOf_vdel_ne _ hjl', v3, payOf_vset_ne _ _ hj, v2, payOf_vset_same hP1 (by rfl), v1, payOf_vset_ne _ _ hj]
+      · rw [v4, payOf_vdel_ne _ hln.symm, v3, payOf_vset_self]
+      · intro l' hl'; injection hl' with hl'; subst hl'; rw [v4]; simp
+    have hef : EdgeFrame s s4 (match cl.prev with
+        | some q => [(q, n)]
+        | none => []) := by
+      refine ⟨?_⟩
+      intro i j c' hc' hnx
+      left
+      have hil : i ≠ l := by intro e; rw [e, v4] at hc'; simp at hc'
+      rw [v4, vdel_ne _ hil, v3] at hc'
+      by_cases hin : i = n
+      · subst hin
+        simp only [vset_self, Option.some.injEq] at hc'; subst hc'
+        rw [hn0] at hnx; cases hnx
+      · rw [vset_ne _ _ hin, v2] at hc'
+        by_cases hiP : i = P
+        · subst hiP
+          simp only [vset_self, Option.some.injEq] at hc'; subst hc'
+          exact ⟨cP, c.hcP, hnx⟩
+        · rw [vset_ne _ _ hiP, v1, vset_ne _ _ hin] at hc'; exact ⟨c', hc', hnx⟩
+    refine ⟨s4, ?_, ((m1.trans m2).trans m3).trans m4, ?_,
+      ⟨{ cn with parent := some P, pay := .text (cl.pay.textOf ++ cn.pay.textOf) },
+        by rw [v4, vdel_ne _ hln.symm, v3]; simp, by rw [hnb]; rfl, by rw [htn]; rfl⟩,
+      ⟨l, cl, hl, hcl, hpf, hef⟩⟩
     · simp only [addNode, e1, bind, Except.bind, dP, hf, hw, dl, dn, hcond, linkMerge, hq, e2, e3, e4, pure,
         Except.pure, if_true]
     · apply forest_merge c hl hcl htn htl (.text (cl.pay.textOf ++ cn.pay.textOf)) rfl
@@ -392,7 +519,39 @@ theorem addNode_merge {s : St} {G : BT} {P n : Nat} {cP cn : Cell} (c : AddCtx s
     have hl4 : s4.cellAt l = some cl := by
       rw [v4, vset_ne _ _ hln, v3, vset_ne _ _ hln, v2, vset_ne _ _ hql.symm]; exact hl1
     obtain ⟨s5, e5, v5, m5⟩ := free_step hl4
-    refine ⟨s5, ?_, (((m1.trans m2).trans m3).trans m4).trans m5, ?_⟩
+    have hnb : cn.pay.isBranch = false := by
+      cases hpay : cn.pay <;> simp [hpay, Pay.isText] at htn <;> rfl
+    have hpf : PayFrame s s5 n (some l) (.text (cl.pay.textOf ++ cn.pay.textOf)) := by
+      refine ⟨?_, ?_, ?_⟩
+      · intro j hj hjl
+        have hjl' : j ≠ l := fun e => hjl (by rw [e])
+        rw [v5, payOf_vdel_ne _ hjl', v4, payOf_vset_ne _ _ hj, v3, payOf_vset_ne _ _ hj, v2,
+          payOf_vset_same hq1 (by rfl), v1, payOf_vset_ne _ _ hj]
+      · rw [v5, payOf_vdel_ne _ hln.symm, v4, payOf_vset_self]
+      · intro l' hl'; injection hl' with hl'; subst hl'; rw [v5]; simp
+    have hef : EdgeFrame s s5 (match cl.prev with
+        | some q => [(q, n)]
+        | none => []) := by
+      refine ⟨?_⟩
+      intro i j c' hc' hnx
+      have hil : i ≠ l := by intro e; rw [e, v5] at hc'; simp at hc'
+      rw [v5, vdel_ne _ hil, v4] at hc'
+      by_cases hin : i = n
+      · subst hin
+        simp only [vset_self, Option.some.injEq] at hc'; subst hc'
+        rw [hn0] at hnx; cases hnx
+      · rw [vset_ne _ _ hin, v3, vset_ne _ _ hin, v2] at hc'
+        by_cases hiq : i = q
+        · subst hiq
+          simp only [vset_self, Option.some.injEq] at hc'; subst hc'
+          simp only [Option.some.injEq] at hnx; subst hnx
+          right; rw [hq]; simp
+        · left
+          rw [vset_ne _ _ hiq, v1, vset_ne _ _ hin] at hc'; exact ⟨c', hc', hnx⟩
+    refine ⟨s5, ?_, (((m1.trans m2).trans m3).trans m4).trans m5, ?_,
+      ⟨{ cn with parent := some P, prev := some q, pay := .text (cl.pay.textOf ++ cn.pay.textOf) },
+        by rw [v5, vdel_ne _ hln.symm, v4]; simp, by rw [hnb]; rfl, by rw [htn]; rfl⟩,
+      ⟨l, cl, hl, hcl, hpf, hef⟩⟩
     · simp only [addNode, e1, bind, Except.bind, dP, hf, hw, dl, dn, hcond, linkMerge, hq, e2, e3, e4, e5, pure,
         Except.pure, if_true]
     · apply forest_merge c hl hcl htn htl (.text (cl.pay.textOf ++ cn.pay.textOf)) rfl
@@ -427,13 +586,14 @@ def addShape (s : St) (G : BT) (P n : Nat) : BT :=
                 else BT.snoc K (.node n (BT.chainKids n G) .nil)) (BT.chainRemove n G)
 
 theorem addNode_under {s : St} {G : BT} {P n : Nat} {cP cn : Cell} (c : AddCtx s G P n cP cn) :
-    ∃ s', addNode s (some P) n = .ok (true, s') ∧ SameMeta s s' ∧ Forest s' (addShape s G P n) := by
+    ∃ s', addNode s (some P) n = .ok (true, s') ∧ SameMeta s s' ∧ Forest s' (addShape s G P n) ∧
+      ∃ c', s'.cellAt n = some c' ∧ c'.pay.isBranch = cn.pay.isBranch ∧ c'.pay.isText = cn.pay.isText := by
   obtain ⟨k1, k2, k3, k4, k5, k6, k7⟩ := c.kids_facts
   cases hf : cP.first with
   | none =>
     have hK : BT.kidsOf P G = .nil := BT.rid_none (by rw [← k1]; exact hf)
-    obtain ⟨s', h1, h2, h3⟩ := addNode_first c hf
-    refine ⟨s', h1, h2, ?_⟩
+    obtain ⟨s', h1, h2, h3, h4, _, _⟩ := addNode_first c hf
+    refine ⟨s', h1, h2, ?_, h4⟩
     simp only [addShape, hK, if_true]; exact h3
   | some fc =>
     have hKne : BT.kidsOf P G ≠ .nil := by
@@ -442,19 +602,19 @@ theorem addNode_under {s : St} {G : BT} {P n : Nat} {cP cn : Cell} (c : AddCtx s
     have hlK : l ∈ (BT.kidsOf P G).ids := BT.tops_sub _ _ (BT.lastId_mem _ _ hl)
     obtain ⟨cl, hcl⟩ := Match.live _ _ _ k2 l hlK
     by_cases hm : (cn.pay.isText && cl.pay.isText) = true
-    · obtain ⟨s', h1, h2, h3⟩ := addNode_merge c hf (by
+    · obtain ⟨s', h1, h2, h3, h4, _⟩ := addNode_merge c hf (by
         intro l' cl' hl' hcl'
         rw [hl] at hl'; injection hl' with hl'; subst hl'
         rw [hcl] at hcl'; injection hcl' with hcl'; subst hcl'; exact hm)
-      refine ⟨s', h1, h2, ?_⟩
+      refine ⟨s', h1, h2, ?_, h4⟩
       simp only [addShape, hKne, if_false, hl, c.hcn, hcl, hm, if_true]; exact h3
     · have hm' : (cn.pay.isText && cl.pay.isText) = false := by
         cases h : (cn.pay.isText && cl.pay.isText) <;> simp_all
-      obtain ⟨s', h1, h2, h3⟩ := addNode_append c hf (by
+      obtain ⟨s', h1, h2, h3, h4, _, _⟩ := addNode_append c hf (by
         intro l' cl' hl' hcl'
         rw [hl] at hl'; injection hl' with hl'; subst hl'
         rw [hcl] at hcl'; injection hcl' with hcl'; subst hcl'; exact hm')
-      refine ⟨s', h1, h2, ?_⟩
+      refine ⟨s', h1, h2, ?_, h4⟩
       simp only [addShape, hKne, if_false, hl, c.hcn, hcl, hm', Bool.false_eq_true]; exact h3
 
 end Wbxml.Model.TreeHeap
